@@ -194,6 +194,13 @@ func numLit(text string) *Term {
 		if !ok {
 			specFail("bad number %s", text)
 		}
+		// a decimal literal in a contract denotes the float64 constant Go would compile it to (so that 0.000001 in a
+		// contract and 1e-6 in the code are the same real number)
+		if f, exact := r.Float64(); !exact {
+			if r2 := new(big.Rat).SetFloat64(f); r2 != nil {
+				r = r2
+			}
+		}
 		return RealLitRat(r)
 	}
 	n, ok := new(big.Int).SetString(text, 10)
@@ -577,6 +584,11 @@ func (x *Exec) constSV(c *types.Const) SV {
 		n, _ := new(big.Int).SetString(c.Val().ExactString(), 10)
 		return SV{T: BigIntLit(n), Typ: t}
 	case SReal:
+		if f, _ := constant.Float64Val(c.Val()); true {
+			if r := new(big.Rat).SetFloat64(f); r != nil {
+				return SV{T: RealLitRat(r), Typ: t}
+			}
+		}
 		return SV{T: realOfConstant(c.Val()), Typ: t}
 	case SBool:
 		if constant.BoolVal(c.Val()) {
